@@ -27,6 +27,7 @@ import (
 	"encoding/hex"
 	"errors"
 	"fmt"
+	"hash/fnv"
 	"io/fs"
 	"os"
 	"path/filepath"
@@ -634,6 +635,9 @@ func maxCollection(env map[string]*V) int {
 
 // RealiseEnv turns a logical environment into the real Go bindings handed to the engine.
 func RealiseEnv(env map[string]*V) map[string]any {
+	h := fnv.New32a()
+	h.Write([]byte(EncEnv(env)))
+	nilPtrFlavor.Store(int32(h.Sum32() % 5))
 	out := make(map[string]any, len(env))
 	for _, k := range sortedKeys(env) {
 		out[k] = env[k].Realise()
